@@ -856,6 +856,34 @@ func PipelineCases() []*Case {
 		f.Imports = []Import{{Pkg: "j5.list.v1"}}
 		add("list-method", f)
 	}
+	// names that case conversions alter: acronyms, digits
+	for _, name := range []string{"PostFooID", "FetchURL", "Sync2fa", "GetV2Thing", "HTTPPing", "FooB"} {
+		{
+			f := file("t/v1", "a")
+			f.Add(&Topic{Name: "Odd", Kind: "publish", Messages: []*TopicMsg{{Name: name, Fields: []*Field{fld("x", T(TString))}}, {Name: "Plain", Fields: []*Field{fld("y", T(TString))}}}})
+			add("odd-name:publish-message:"+name, f)
+		}
+		{
+			f := file("t/v1", "a")
+			f.Add(&Topic{Name: name, Kind: "reqres", Request: []*Field{fld("x", T(TString))}, Reply: []*Field{fld("y", T(TString))}})
+			add("odd-name:reqres-topic:"+name, f)
+		}
+		{
+			f := file("t/v1", "a")
+			f.Add(&Topic{Name: name, Kind: "publish", Messages: []*TopicMsg{{Name: "Only", Fields: []*Field{fld("x", T(TString))}}}})
+			add("odd-name:publish-topic:"+name, f)
+		}
+		{
+			f := file("t/v1", "a")
+			f.Add(&Service{Name: "Odd", BasePath: "/t/v1", Methods: []*Method{{Name: name, Verb: "POST", Path: "/odd", Request: []*Field{fld("x", T(TString))}, HasResponse: true, Response: []*Field{fld("y", T(TString))}}}})
+			add("odd-name:method:"+name, f)
+		}
+		{
+			f := file("t/v1", "a")
+			f.Add(&Service{Name: name, BasePath: "/t/v1", Methods: []*Method{{Name: "DoIt", Verb: "GET", Path: "/odd", HasResponse: true}}})
+			add("odd-name:service:"+name, f)
+		}
+	}
 	// one list rule on one field, at the top level, nested, below a oneof arm and in a recursive item
 	{
 		type lr struct {
